@@ -66,7 +66,7 @@ Definition ctpk_entry (f : bytes) (tsec i : N) (t : tex) : Prop :=
     u32_at LE f (b + 12) = Some (t_fmt t) /\ u16_at LE f (b + 16) = Some (t_w t) /\ u16_at LE f (b + 18) = Some (t_h t) /\
     b + 32 <= lenN f /\
     cstr_atN f np = Some (t_name t) /\ sliceN (tsec + dp) (lenN (t_data t)) f = Some (t_data t) /\
-    tex3ds_wf sjis_valid t.
+    tex3ds_wf sjis_name t.
 
 Definition conforms_ctpk (f : bytes) (texs : list tex) : Prop :=
   lenN f < 2 ^ 32 /\ 32 <= lenN f /\ u32_at LE f 0 = Some CTPK_FMAGIC /\
@@ -196,7 +196,7 @@ Definition ctpk_entryb (f : bytes) (tsec i : N) (t : tex) : bool :=
     && oN_eqb (u16_at LE f (b + 16)) (t_w t) && oN_eqb (u16_at LE f (b + 18)) (t_h t)
     && (b + 32 <=? lenN f)
     && ob_eqb (cstr_atN f np) (t_name t) && ob_eqb (sliceN (tsec + dp) (lenN (t_data t)) f) (t_data t)
-    && tex3ds_wfb sjis_valid t
+    && tex3ds_wfb sjis_name t
   | _, _ => false
   end.
 Definition conforms_ctpkb (f : bytes) (texs : list tex) : bool :=
